@@ -45,8 +45,12 @@ Record config := mkConfig {
 }.
 
 (* the item after __init__: an atom (None; a number only in strict mode; a
-   str / bytes), or a compiled pattern (of a str or of a bytes source) *)
-Inductive eitem := EAtom (a : atom) | ERe (bytes_pat : bool).
+   str / bytes), a compiled pattern (of a str or of a bytes source), or a
+   container passed through unchanged *)
+Inductive eitem :=
+| EAtom (a : atom)
+| ERe (bytes_pat : bool)
+| EVal (v : value).       (* a container item (list / tuple / dict / set): only ever compared with == *)
 Inductive prep := PRaise | PItem (cs : bool) (it : eitem).
 
 Inductive event :=
@@ -78,7 +82,7 @@ Section Search.
   Variable brepr : pystr -> pystr.        (* str(b) for a bytes object b *)
   Variable re_search : pystr -> bool.     (* (compiled item).search(text) is a match *)
   Variable excl_re : pystr -> bool.       (* some exclude_regex_paths pattern .search(text) *)
-  Variable re_text : pystr.               (* str(compiled item) *)
+  Variable re_text : pystr.               (* str(item) for a compiled / container item *)
   Variable str_attrs bytes_attrs : list pystr.   (* [n for n in dir(str / bytes) if not dunder] *)
   Variable c : config.
 
@@ -106,7 +110,7 @@ Section Search.
   Definition render (p : path) : pystr := (s2p "root" ++ List.concat (map render_step p))%list.
 
   (* __init__ *)
-  Definition prepare (item : atom) : prep :=
+  Definition prepare_atom (item : atom) : prep :=
     let cs := if is_strlike item then cs_flag c else true in
     let i1 := if cs then item else lower_atom item in
     let i2 := if negb (strict c) && is_number i1 then AStr (str_atom i1) else i1 in
@@ -117,6 +121,12 @@ Section Search.
       | _ => PRaise                        (* re.compile(non-string): TypeError *)
       end
     else PItem cs (EAtom i2).
+  Definition prepare (item : value) : prep :=
+    match item with
+    | VAtom a => prepare_atom a
+    | _ => if use_regexp c then PRaise          (* re.compile(container): TypeError *)
+           else PItem true (EVal item)
+    end.
 
   Definition path_excl (p : path) : bool :=
     let t := render p in existsb (pystr_eqb t) (excl_paths c) || excl_re t.
@@ -127,7 +137,7 @@ Section Search.
     Variable it : eitem.       (* the item as passed to __search *)
 
     Definition item_excl : bool :=
-      match it with EAtom a => ty_excl (atom_ty a) | ERe _ => false end.
+      match it with EAtom a => ty_excl (atom_ty a) | ERe _ => false | EVal v => ty_excl (type_of v) end.
     (* __skip_this(item, parent)  -- the call at the top of __search *)
     Definition skip_item (p : path) : bool := path_excl p || item_excl.
     (* __skip_this(thing, new_parent)  -- the call in __search_iterable *)
@@ -136,15 +146,15 @@ Section Search.
     Definition fold_s (s : pystr) : pystr := if cs then s else lower s.
     (* str(item) *)
     Definition item_text : pystr :=
-      match it with EAtom a => str_atom a | ERe _ => re_text end.
+      match it with EAtom a => str_atom a | ERe _ | EVal _ => re_text end.
     (* item == x  for an atom x *)
     Definition eq_item (a : atom) : bool :=
-      match it with EAtom b => py_eq b a | ERe _ => false end.
+      match it with EAtom b => py_eq b a | ERe _ | EVal _ => false end.
 
     Definition item_is_str_or_re : bool :=
       match it with EAtom (AStr _) | EAtom (ABytes _) | ERe _ => true | _ => false end.
     Definition item_is_number : bool :=
-      match it with EAtom a => is_number a | ERe _ => false end.
+      match it with EAtom a => is_number a | ERe _ | EVal _ => false end.
 
     (* __search_str; isb: the object is a bytes *)
     Definition search_str (isb : bool) (s : pystr) (p : path) : list event :=
@@ -161,7 +171,7 @@ Section Search.
       | ERe b => if Bool.eqb b isb then (if re_search txt then hit else []) else [EvRaise]
       | EAtom (AStr i) => plain false i
       | EAtom (ABytes i) => plain true i
-      | EAtom _ => []
+      | EAtom _ | EVal _ => []
       end.
 
     (* __search_numbers *)
@@ -171,7 +181,7 @@ Section Search.
       else if strict c then []
       else match it with
            | EAtom (AStr i) => if pystr_eqb i (str_atom a) then hit else []
-           | EAtom _ => []
+           | EAtom _ | EVal _ => []
            | ERe false => if re_search (str_atom a) then hit else []
            | ERe true => [EvRaise]            (* bytes pattern .search(str(obj)) *)
            end.
@@ -184,11 +194,11 @@ Section Search.
       else match it with
            | ERe false => if re_search txt then hit else []
            | ERe true => [EvRaise]            (* bytes pattern .search(path text) *)
-           | EAtom _ => []
+           | EAtom _ | EVal _ => []
            end.
 
-    (* __search_obj on None, and on a str / bytes when the item is None (the only
-       item for which a str reaches the last branch of __search): `obj == item`,
+    (* __search_obj on None, and on a str / bytes when the item is None or a
+       container (the items for which a str reaches the last branch of __search): `obj == item`,
        then __search_dict(print_as_attribute=True) over the non-dunder attributes;
        each attribute is a builtin method / function, whose own search reports nothing *)
     Definition attr_events (names : list pystr) (p : path) : list event :=
@@ -222,9 +232,12 @@ Section Search.
 
     (* thing_cased == item *)
     Definition thing_eq_item (x : value) : bool :=
-      match x with
-      | VAtom a => eq_item (if cs then a else lower_atom a)
-      | _ => false
+      match it with
+      | EVal w => py_eqv x w                  (* Python == on containers *)
+      | _ => match x with
+             | VAtom a => eq_item (if cs then a else lower_atom a)
+             | _ => false
+             end
       end.
     Definition shortcut (x : value) : bool := negb (use_regexp c) && thing_eq_item x.
 
@@ -264,7 +277,7 @@ Section Search.
   Definition is_raise (e : event) : bool := match e with EvRaise => true | _ => false end.
 
   (* DeepSearch(obj, item, **config) *)
-  Definition deep_search (item : atom) (obj : value) : result :=
+  Definition deep_search (item : value) (obj : value) : result :=
     match prepare item with
     | PRaise => RRaise
     | PItem cs it =>
